@@ -25,9 +25,10 @@ ASSUMPTIONS = [
     'parenthesis bodies are sequences of complete tokens; bare block keywords '
     '(BEGIN, END, DECLARE, IF, END IF, CASE) are used only in non-CREATE '
     'statements (inside CREATE they drive the procedural counter: C17)',
-    'replacement bodies of quote-delimited regions contain no backslash '
+    'replacement bodies of quote-delimited regions never END in a backslash '
     '(for the lexer a backslash before a quote is an escape, so whether such '
-    'a body "lacks the terminator" depends on what follows the region)',
+    'a body "lacks the terminator" depends on what follows the region); '
+    'backslashes elsewhere in the body - also before a line break - are used',
     'a block comment after the last ; is a statement of its own for a '
     'non-validating splitter, so the script tail is whitespace only',
 ]
@@ -115,6 +116,19 @@ def soup_body(rng, forbid, maxlen=30):
     return body
 
 
+def quoted_body(rng, quote):
+    """Body of a quote-delimited region: no quote, and a backslash only
+    where it cannot stand before the closing quote (never last)."""
+    b = soup_body(rng, [quote])
+    if rng.random() < 0.15 and len(b) < 1000:
+        i = rng.randint(0, len(b))
+        b = b[:i] + rng.choice(['\\\n', '\\;', '\\\\;', '\\\r\n', '\\ ',
+                                '\\n;']) + b[i:]
+    while b.endswith('\\'):
+        b = b[:-1]
+    return b
+
+
 PAREN_ITEMS = ['a', 'b1', '1', '2.5', "'s'", "'x;y'", "';'", '"q;"', '`b;`',
                '/* ; */', '/* c */', ',', ',', '+', '=', '*', ';', ';', ';',
                'select', 'from', 'where', 'and', 'x', 'null', 'in', '$$;$$',
@@ -139,9 +153,9 @@ def paren_body(rng, blocks):
 def replacement(rng, kind, old, is_create):
     """New text for a region (delimiters kept). Returns (text, label)."""
     if kind == 'str':
-        return "'" + soup_body(rng, ["'", '\\']) + "'", 'str'
+        return "'" + quoted_body(rng, "'") + "'", 'str'
     if kind == 'qname':
-        b = soup_body(rng, ['"', '\\']) or 'x'
+        b = quoted_body(rng, '"') or 'x'
         return '"' + b + '"', 'qname'
     if kind == 'bname':
         b = soup_body(rng, ['`']) or 'x'
